@@ -30,10 +30,10 @@ ID = "C15"
 LEVEL = "model_checking"
 SHARDS = 4
 RULE = (
-    "generator configurations = every single body, every unordered pair and selected triples of 8 "
+    "generator configurations = every single body, every unordered pair and selected triples of 10 "
     "bodies (plain yields with return value, action spanning yields, action between yields, nested "
     "decorated generator via yield from, catching a thrown exception, try/finally logging on close, "
-    "immediate return, two nested actions spanning a yield); driver step sequences of length <= L with "
+    "immediate return, two nested actions spanning a yield, catching a thrown exception / GeneratorExit and returning, the same one level down via yield from); driver step sequences of length <= L with "
     "<= k deviations from (round-robin, next, no context), each deviation replacing a step by any other "
     "(generator, op, context) triple with context in {none, inside X, inside Y, copied Context, other thread}; states = distinct (per-generator reference stacks, driver "
     "context) vectors, transitions = driver steps; non-trivial = sequence with >= 1 deviation"
@@ -208,7 +208,32 @@ def b_two(env, deco):
     return "two-done"
 
 
-BODIES = [b_plain, b_span, b_between, b_nested, b_catch, b_finally, b_return, b_two]
+def b_catch_return(env, deco):
+    env.probe("start")
+    try:
+        yield 1
+        env.probe("r1")
+        yield 2
+    except Thrown as e:
+        env.probe("in-except")
+        return ("caught-and-returned", e)
+    except GeneratorExit:
+        env.probe("in-generator-exit")
+        return "swallowed-close"
+    return "not-thrown"
+
+
+def b_nested_catch(env, deco):
+    env.probe("start")
+    inner_env = Env(env.name + ".inner", env.problems, env.checking, env.seen)
+    inner_env.base = env.top()
+    r = yield from deco(b_catch_return)(inner_env, deco)
+    env.probe("after-yield-from")
+    yield ("inner-returned", r)
+    return "outer-done"
+
+
+BODIES = [b_plain, b_span, b_between, b_nested, b_catch, b_finally, b_return, b_two, b_catch_return, b_nested_catch]
 OPS = ["next", "send", "throw", "close"]
 
 
